@@ -351,6 +351,10 @@ def fmt_literal(opd, bare=False):
     return rec_(opd['e'], shp)
 
 
+DERIVED_M = {2: {'s': [2, 2], 'e': [2, 1, 1, 3]}, 3: {'s': [3, 3], 'e': [2, 1, 0, 1, 3, 1, 0, 1, 4]},
+             4: {'s': [4, 4], 'e': [2, 1, 0, 0, 1, 3, 1, 0, 0, 1, 4, 1, 0, 0, 1, 5]}}
+
+
 def run_op(spec):
     op, route = spec['op'], spec['route']
     if route == 'formula':
@@ -363,10 +367,14 @@ def run_op(spec):
                 nm = name if opd['s'] else name.lower()
                 variables[nm] = build(opd)
                 parts.append(nm)
+        if spec.get('derived'):
+            parts[0] = '(%s^-1*0+%s)' % (fmt_literal(DERIVED_M[spec['a']['s'][0]]), parts[0])
         formula = parts[0] + op + parts[1]
         status, out = call(evaluator, formula, variables, {}, {})
         return status, (out[0] if status == 'ok' else out), formula
     a, b = build(spec['a']), build(spec['b'])
+    if spec.get('derived'):
+        a = (build(DERIVED_M[spec['a']['s'][0]]) ** -1) * 0 + a
     f = INP[op] if route == 'inplace' else BIN[op]
     status, out = call(f, a, b)
     return status, out, '%s %s%s %s' % (spec['a']['s'] or 'scalar', op, '=' if route == 'inplace' else '',
@@ -395,6 +403,8 @@ def judge_op(spec, rec):
         label = 'reflected' if (route == 'binary' and sa == ()) else route
     rec.cls('route:' + label)
     rec.cls('op:' + OPN[op])
+    if spec.get('derived'):
+        rec.cls('pow:base-derived-from-an-inverse-computed-before')
     flat_all = A[1] + B[1]
     if any(isinstance(x, complex) for x in flat_all):
         rec.cls('complex-entries')
@@ -727,7 +737,12 @@ def st_singular(draw):
                                                               else [])
     a = {'s': [n, n], 'e': draw(st_square(n, flat, pool))}
     b = {'s': [], 'e': [draw(st.sampled_from([-1, -1, -1, -2, -3, -1.0, -2.0, 0, 1, 2, 3, 2.0, 0.5, -0.5]))]}
-    return draw(st_routed('^', a, b))
+    spec = draw(st_routed('^', a, b))
+    # the base as the RESULT of arithmetic on an inverse that was computed just before: (M^-1*0 + A)^k with a well-conditioned
+    # M - the same matrix A, but an object derived from other arrays (a seeded change cached a matrix's rank on the array
+    # object, and numpy handed the cached value on to every array derived from it)
+    spec['derived'] = draw(st.booleans())
+    return spec
 
 
 @st.composite
